@@ -360,6 +360,43 @@ pub fn run(cfg: &Cfg, rep: &mut Report) {
     }, &|o, _| super::thr::after_unsub(o));
   }
 
+  // (f) is_closed() asked from a second thread while the source thread emits and terminates
+  // and a worker runs the scheduled tasks
+  {
+    let n = cfg.n(6_000, 300_000);
+    let mut rng = Rng::new(cfg.seed ^ 0xC17F0);
+    let mut abandoned = 0;
+    for i in 0..n {
+      let mut r = rng.fork();
+      if !cfg.mine(i) {
+        continue;
+      }
+      let id = format!("closedrace:{}", i);
+      if !cfg.wants(&id) || abandoned >= 20 {
+        continue;
+      }
+      rep.evaluations += 1;
+      rep.count("is_closed_sampling_races", 1);
+      let strategy = super::thr::strategy_for(&mut r);
+      let (problem, out, name) = super::thr::closed_sampling_race(r.below(4), r.below(3), r.chance(1, 3), r.next(), strategy.clone());
+      rep.events += out.points;
+      rep.distinct("distinct_is_closed_race_schedules", hash64(&(name, &out.trace)));
+      if out.switches > 0 {
+        rep.nontrivial.insert(hash64(&("closedrace", name, &out.trace)));
+      }
+      if out.timed_out || out.livelock {
+        abandoned += 1;
+        rep.inconclusive.push(format!("{}: schedule abandoned", id));
+        continue;
+      }
+      if let Some(d) = &out.deadlock {
+        rep.violation("deadlock", &format!("{}[is_closed || terminal]", name), &id, json!({"waits": format!("{:?}", d)}));
+      } else if let Some((kind, why)) = problem {
+        rep.violation(&kind, &format!("{}[is_closed || terminal]", name), &id, json!({"why": why, "strategy": format!("{:?}", strategy), "schedule_length": out.trace.len()}));
+      }
+    }
+  }
+
   // (c) the small subscription types, driven directly
   if cfg.shard == 0 && cfg.only_case.is_none() {
     direct_battery(rep);
